@@ -41,6 +41,7 @@ func checkC11(c *Ctx, r *Report) {
 	providerPrecedence(c, r, "C11.R2.provider-precedence")
 	borrow(c, r, c15ReadMsg, "C15.R3.verify-every-message", "C11.R5.transfer-verify", 1, "Transfer.ReadMsg verifies the octets as received (the TSIG still in them) and keeps the verified MAC as the previous MAC", nil, "the MAC chain of a multi-envelope answer breaks: the second envelope of a correctly signed transfer fails with a bad signature")
 	borrow(c, r, func(c *Ctx, r *Report) { c15Loop(c, r, "Transfer.inAxfr"); c15Loop(c, r, "Transfer.inIxfr") }, "C15.R3.timers-only", "C11.R5.timers-only", 2, "timers-only is only switched on (before the second envelope), never reset while a transfer runs", nil, "the query of the second transfer made with one Transfer is signed timers-only and does not verify as a first message")
+	macKeptOnFailure(c, r, "C11.R5.mac-kept-on-failure")
 }
 
 func isUint64(v ssa.Value) bool {
